@@ -7,6 +7,7 @@
      fixes/c08-12-tt1-read-error-inside-tlv.diff   read errors inside a TLV end the walk (were: escape)
      fixes/c08-13-tt1-control-tlv-length.diff      control TLVs with a value length other than 3 are ignored
      fixes/c08-14-tt1-segment-range.diff           nothing is addressable beyond segment 15 (2048 bytes)
+     fixes/c08-17-tt1-read-all-without-header-rom.diff  a RALL response without header ROM is a failed read (em = [])
      fixes/c08-15-tt1-ndef-tlv-exceeds-data-area.diff, fixes/c08-16-tt2-ndef-tlv-exceeds-data-area.diff
                                                    an NDEF TLV is only reported when tag, length field and
                                                    value lie inside the data area and the value is not longer
